@@ -2010,9 +2010,9 @@ fn main() {
         rep.finish(0);
     }
     let (seed, tier) = (args.seed, args.tier);
-    let n_air = tier.pick(40_000usize, 1_600_000usize);
-    let n_direct = tier.pick(20_000usize, 700_000usize);
-    let n_real = tier.pick(600usize, 20_000usize);
+    let n_air = tier.pick(160_000usize, 1_600_000usize);
+    let n_direct = tier.pick(80_000usize, 700_000usize);
+    let n_real = tier.pick(2400usize, 20_000usize);
     rep.set_extra("cases", json!({"air": n_air, "direct": n_direct, "real": n_real}));
     if let Some(one) = args.extra.get("only") {
         let i: usize = one.parse().unwrap();
